@@ -79,7 +79,7 @@ fn gen_bytes(r: &mut Rng, corpus: &Corpus, enc: &str) -> Vec<u8> {
     }
 }
 
-pub fn run(seed: u64, n: usize, driver: &str, out: &str) -> serde_json::Value {
+pub fn run(seed: u64, n: usize, driver: &str, out: &str, exhaustive: bool) -> serde_json::Value {
     let corpus = load_corpus();
     let mut rng = Rng::new(seed);
     let mut drv = Driver::start(driver);
@@ -314,6 +314,74 @@ pub fn run(seed: u64, n: usize, driver: &str, out: &str) -> serde_json::Value {
             diffs.push(json!({"what": "a non-CJK encoding is not covered by Model/Codecs.v", "encoding": e}));
         }
     }
+    // 2d. exhaustive small domains (thorough tier): EVERY byte string of length 1 and 2 through the UTF-8 model (strict, chunk)
+    //     and through the UTF-16LE/BE models (strict, replace); every 3-byte string starting with E0 / ED / EF and every
+    //     4-byte string F0 8x..9x / F4 8x..9x xx 80|BF (the rows where overlong forms, surrogates and the upper limit sit)
+    let mut exhaustive_cases = 0u64;
+    if exhaustive {
+        let mut inputs: Vec<Vec<u8>> = vec![];
+        for a in 0..=255u8 { inputs.push(vec![a]); for b in 0..=255u8 { inputs.push(vec![a, b]); } }
+        for a in [0xE0u8, 0xED, 0xEF] { for b in 0x80..=0xBFu8 { for c in 0x7F..=0xC0u8 { inputs.push(vec![a, b, c]); } } }
+        for a in [0xF0u8, 0xF4] { for b in 0x80..=0x9Fu8 { for c in [0x80u8, 0xBF] { for d in [0x7Fu8, 0x80, 0xBF, 0xC0] { inputs.push(vec![a, b, c, d]); } } } }
+        let cps = |t: &str| -> String { t.chars().map(|c| (c as u32).to_string()).collect::<Vec<_>>().join(",") };
+        for b in &inputs {
+            for (mode, chunk) in [("STRICT", false), ("CHUNK", true)] {
+                exhaustive_cases += 1;
+                evals += 1;
+                let real = real_line(&decode(b, "utf-8", DecoderTrap::Strict, false, chunk));
+                let model = drv.decode_model(&format!("U8 {} {}", mode, hex(b)));
+                let cut = |l: &String| -> String { if l.starts_with("R ERR") { "R ERR".to_string() } else { l.clone() } };
+                if cut(&real) != cut(&model) {
+                    diffs.push(json!({"what": "utf-8 decoder model (exhaustive small strings)", "mode": mode, "bytes_hex": hex(b), "real": real, "model": model}));
+                }
+            }
+            if b.len() <= 2 || b.len() == 4 {
+                for (enc, bo) in [("utf-16le", "LE"), ("utf-16be", "BE")] {
+                    for (mode, trap) in [("STRICT", DecoderTrap::Strict), ("REPLACE", DecoderTrap::Replace)] {
+                        exhaustive_cases += 1;
+                        evals += 1;
+                        let real = match decode(b, enc, trap, false, false) { Ok(t) => format!("R OK {}", cps(&t)), Err(_) => "R ERR".to_string() };
+                        let model = drv.decode_model(&format!("U16 {} {} {}", bo, mode, hex(b)));
+                        let model_c = if model.starts_with("R ERR") { "R ERR".to_string() } else { model.clone() };
+                        if real != model_c {
+                            diffs.push(json!({"what": "utf-16 decoder model (exhaustive small strings)", "encoding": enc, "mode": mode, "bytes_hex": hex(b), "real": real, "model": model}));
+                        }
+                    }
+                }
+            }
+        }
+        // every surrogate-range code unit pair boundary: hi in {D7FF, D800, DBFF, DC00}, lo in every unit of DB00..E0FF
+        for hi in [0xD7FFu16, 0xD800, 0xDBFF, 0xDC00, 0xDFFF, 0xE000] {
+            for lo in 0xDB00..=0xE0FFu16 {
+                for (enc, bo) in [("utf-16le", "LE"), ("utf-16be", "BE")] {
+                    let mut b = vec![];
+                    for u in [hi, lo] { if bo == "BE" { b.extend_from_slice(&u.to_be_bytes()) } else { b.extend_from_slice(&u.to_le_bytes()) } }
+                    exhaustive_cases += 1;
+                    evals += 1;
+                    let real = match decode(&b, enc, DecoderTrap::Strict, false, false) { Ok(t) => format!("R OK {}", cps(&t)), Err(_) => "R ERR".to_string() };
+                    let model = drv.decode_model(&format!("U16 {} STRICT {}", bo, hex(&b)));
+                    let model_c = if model.starts_with("R ERR") { "R ERR".to_string() } else { model.clone() };
+                    if real != model_c {
+                        diffs.push(json!({"what": "utf-16 decoder model (surrogate boundaries)", "encoding": enc, "bytes_hex": hex(&b), "real": real, "model": model}));
+                    }
+                }
+            }
+        }
+        // every scalar value on a stride + every boundary: encoders and round trip
+        let mut cpsv: Vec<u32> = (0..0x110000u32).step_by(257).collect();
+        for b in [0x7Fu32, 0x80, 0x7FF, 0x800, 0xD7FF, 0xE000, 0xFFFF, 0x10000, 0x3FFFF, 0x40000, 0xFFFFF, 0x100000, 0x10FFFF] { cpsv.push(b); }
+        for c in cpsv.iter().filter_map(|c| char::from_u32(*c)) {
+            exhaustive_cases += 1;
+            evals += 1;
+            let t = c.to_string();
+            let m8 = drv.decode_model(&format!("UENC 8 {}", c as u32));
+            let le: Vec<u8> = t.encode_utf16().flat_map(|u| u.to_le_bytes()).collect();
+            let m16 = drv.decode_model(&format!("UENC 16LE {}", c as u32));
+            if m8 != format!("R {}", hex(t.as_bytes())) || m16 != format!("R {}", hex(&le)) {
+                diffs.push(json!({"what": "encoder models (scalar sweep)", "code_point": c as u32, "utf8_model": m8, "utf16le_model": m16}));
+            }
+        }
+    }
     // 3. the window property: every window [i,j) of a valid UTF-8 text that contains a complete character
     //    decodes (chunk mode) to exactly the complete characters inside it
     let mut windows = 0u64;
@@ -351,7 +419,7 @@ pub fn run(seed: u64, n: usize, driver: &str, out: &str) -> serde_json::Value {
         }
     }
     let rep = json!({"level": "decode", "seed": seed, "evaluations": evals, "distinct_nontrivial": nontrivial, "windows": windows,
-        "single_byte_tables": tables.len(), "utf16_cases": u16_cases, "codec_by_name_evaluations": by_name, "unmodelled_codecs": unmodelled, "disagreements": diffs, "violations": violations, "samples": samples});
+        "single_byte_tables": tables.len(), "utf16_cases": u16_cases, "exhaustive_small_domain_cases": exhaustive_cases, "codec_by_name_evaluations": by_name, "unmodelled_codecs": unmodelled, "disagreements": diffs, "violations": violations, "samples": samples});
     std::fs::write(out, serde_json::to_string_pretty(&rep).unwrap()).expect("write");
     rep
 }
